@@ -80,6 +80,8 @@ struct Case {
   remote: bool,
   json: bool,
   bytes: Vec<u8>,
+  /// a root without a known extension served with a content type that names no known media type
+  unknown_media: bool,
 }
 
 enum Obs {
@@ -90,10 +92,10 @@ enum Obs {
 
 fn observe(c: &Case) -> Obs {
   let ext = if c.json { "json" } else { "js" };
-  let url = if c.remote { format!("https://h.example/w/m.{}", ext) } else { format!("file:///w/m.{}", ext) };
+  let url = if c.unknown_media { "https://h.example/w/m".to_string() } else if c.remote { format!("https://h.example/w/m.{}", ext) } else { format!("file:///w/m.{}", ext) };
   let spec = ModuleSpecifier::parse(&url).unwrap();
   let headers = c.label.map(|l| {
-    let mt = if c.json { "application/json" } else { "application/javascript" };
+    let mt = if c.unknown_media { "application/x-whatever" } else if c.json { "application/json" } else { "application/javascript" };
     // the charset parameter is not always the first one, nor written in lower case
     let variant = c.bytes.iter().map(|b| *b as usize).sum::<usize>() % 4;
     let value = match variant {
@@ -232,9 +234,28 @@ pub fn run(tier: &str, seed: u64) -> Report {
             v.extend(body);
             v
           };
-          let case = Case { label: *label, remote, json: jsonm, bytes: bytes.clone() };
+          let case = Case { label: *label, remote, json: jsonm, bytes: bytes.clone(), unknown_media: false };
           report.evaluations += 1;
           let obs = observe(&case);
+          // the same bytes as a root of unknown media type (taken for JavaScript): the charset of the header still decides
+          if remote && !jsonm && label.is_some() {
+            report.evaluations += 1;
+            let exp = expected_text(*label, false, &bytes);
+            let desc = json!({"label": label, "remote": true, "root_of_unknown_media_type": true, "bytes": hex(&bytes)});
+            match observe(&Case { label: *label, remote: true, json: false, bytes: bytes.clone(), unknown_media: true }) {
+              Obs::Module { text, .. } => match &exp {
+                Some(e) if e.as_bytes() != &text[..] => report.fail("oracle", "text-is-not-the-decoding", format!("root of unknown media type: text {} expected {}", hex(&text), hex(e.as_bytes())), desc),
+                None => report.fail("oracle", "undecodable-became-module", format!("root of unknown media type: module with text {} although the charset is unsupported", hex(&text)), desc),
+                _ => report.count("outcome:unknown-media-root:decoded"),
+              },
+              Obs::DecodeError => {
+                if exp.is_some() {
+                  report.fail("oracle", "decodable-became-error", "root of unknown media type: decode error although the charset is supported".into(), desc);
+                }
+              }
+              Obs::Other(_) => report.count("outcome:unknown-media-root:not-observable"),
+            }
+          }
           let cs = model_charset(*label);
           let conv = if cs == "other" {
             match deno_media_type::encoding::convert_to_utf8(&bytes, label.unwrap()) {
